@@ -111,6 +111,8 @@ class World:
         self.use_registry = registry
         self.src_version = {}
         self.latch = None
+        self.flaky_ops = {}
+        self.op_attempts = {}
         self._build()
 
     # -- building ---------------------------------------------------------
@@ -260,6 +262,17 @@ class World:
 
     def op_begin(self, kind, idx):
         mode = self._next_op(kind, idx)
+        j = self.flaky_ops.get((kind, idx))
+        if j is not None:
+            with self.lock:
+                a = self.op_attempts.get((kind, idx), 0) + 1
+                self.op_attempts[(kind, idx)] = a
+            self.log(kind + "_attempt", idx, a)
+            if a <= j:
+                exc = InjectedFault(f"flaky {kind} of {idx}: attempt {a} fails")
+                self.raised.setdefault((kind, idx), []).append(exc)
+                self.log(kind + "_raise", idx, type(exc).__name__)
+                raise exc
         with self.lock:
             if kind == "mt":
                 self.inflight_mt += 1
@@ -381,6 +394,7 @@ class World:
         self.dead = False
         self.inflight = self.max_inflight = 0
         self.inflight_mt = self.max_inflight_mt = 0
+        self.op_attempts = {}
 
     # -- running ------------------------------------------------------------
     def output_obj(self, out):
